@@ -432,6 +432,9 @@ def check_demands(doc_after, top, meta):
 # running the real entry points
 # ---------------------------------------------------------------------------------------------
 
+# temp files live on tmpfs when there is one (the tool fsyncs every write; on a disk that dominates the run)
+SCRATCH = "/dev/shm" if os.path.isdir("/dev/shm") and os.access("/dev/shm", os.W_OK) else None
+
 def run_tool(path, changes, mutations=None):
     from octave_mcp.mcp.write import WriteTool
     kw = {"target_path": path, "changes": changes}
@@ -455,7 +458,7 @@ def oracle_history(case):
     from octave_mcp.core.emitter import emit
     from octave_mcp.core.parser import parse
     entry = case.get("entry", "mcp")
-    td = tempfile.mkdtemp(prefix="c18-")
+    td = tempfile.mkdtemp(prefix="c18-", dir=SCRATCH)
     path = os.path.join(td, "f.oct.md")
     try:
         with open(path, "w", encoding="utf-8") as f:
@@ -764,6 +767,12 @@ KEYS_CORR_ONLY = ["META", "META.", "META.A.B", "META.META", "METAX", "XMETA.Y", 
 
 
 def own_keys(text):
+    if text not in _KEYS_CACHE:
+        _KEYS_CACHE[text] = _own_keys(text)
+    return _KEYS_CACHE[text]
+
+
+def _own_keys(text):
     from octave_mcp.core.parser import parse
     A = _ast()
     d = parse(text)
@@ -853,7 +862,18 @@ def canonical_text(D):
         return None
 
 
+_TEXT_CACHE = {}
+_KEYS_CACHE = {}
+
+
 def gen_text_doc(seed, idx):
+    key = (seed, idx)
+    if key not in _TEXT_CACHE:
+        _TEXT_CACHE[key] = _gen_text_doc(seed, idx)
+    return _TEXT_CACHE[key]
+
+
+def _gen_text_doc(seed, idx):
     rng = random.Random(f"{seed}:doc:{idx}")
     for _attempt in range(6):
         D = gen_doc(rng, for_text=True)
@@ -889,27 +909,25 @@ def contains_nonempty_dict(v):
 
 
 def kf_cli_delete_sentinel(case, step):
-    """entry point = CLI and the request contains a DELETE sentinel where the MCP tool would dispatch on it"""
+    """entry point = CLI and a request of the history (up to the failing step) contains a DELETE sentinel where the MCP tool would dispatch on it"""
     if case.get("kind", "history") != "history":
         return False
-    rq = case["requests"][step]
-    return case.get("entry") == "cli" and (any(is_delete(v) for v in dispatch_values(rq)) or is_delete(rq["changes"].get("META")))
+    return case.get("entry") == "cli" and any(any(is_delete(v) for v in dispatch_values(rq)) or is_delete(rq["changes"].get("META"))
+                                              for rq in case["requests"][:step + 1])
 
 
 def kf_cli_meta_replace(case, step):
-    """entry point = CLI and the request has a META{...} dict (the CLI replaces META instead of merging)"""
+    """entry point = CLI and a request of the history (up to the failing step) has a META{...} dict (the CLI replaces META instead of merging)"""
     if case.get("kind", "history") != "history":
         return False
-    rq = case["requests"][step]
-    return case.get("entry") == "cli" and isinstance(rq["changes"].get("META"), dict)
+    return case.get("entry") == "cli" and any(isinstance(rq["changes"].get("META"), dict) for rq in case["requests"][:step + 1])
 
 
 def kf_cli_container_value(case, step):
-    """entry point = CLI and a request value is a list or a dict (stored raw, printed with str())"""
+    """entry point = CLI and a request value of the history (up to the failing step) is a list or a dict (stored raw, printed with str())"""
     if case.get("kind", "history") != "history":
         return False
-    rq = case["requests"][step]
-    return case.get("entry") == "cli" and any(isinstance(v, (list, dict)) for v in dispatch_values(rq))
+    return case.get("entry") == "cli" and any(isinstance(v, (list, dict)) for rq in case["requests"][:step + 1] for v in dispatch_values(rq))
 
 
 def kf_nested_inline_map(case, step):
